@@ -153,6 +153,47 @@ def showExc : Except PyExc Unit → String
   | .error .TypeError => "TypeError"
   | .error .ValueError => "ValueError"
 
+def showBF (x : HP.BF) : String := s!"{x.m}@{x.e}"
+
+def showTeamsX (ts : List (List (Rating HP.BF))) : String :=
+  " / ".intercalate (ts.map (fun t =>
+    " ".intercalate (t.map (fun p => s!"{p.id}:{showBF p.mu}:{showBF p.sigma}"))))
+
+/-- one tape node: `f<hex16>` / `i<int>` constants, `A:a:b` `S:a:b` `M:a:b` `D:a:b`, `N:a` `B:a` `Q:a` `X:a` `R:a` `C:a` `P:a`
+`I:a`, and recorded comparisons `L:a:b:o` `G:a:b:o` `E:a:b:o` -/
+def pNode : P (TNode HP.BF) := do
+  let t ← tok
+  if t.startsWith "f" then
+    match parseFloat (t.drop 1).toString with
+    | some f => pure (.const (HP.ofFloat f))
+    | none => throw s!"bad-node {t}"
+  else if t.startsWith "i" then
+    match (t.drop 1).toString.toInt? with
+    | some i => pure (.const (HP.ofInt i))
+    | none => throw s!"bad-node {t}"
+  else
+    let parts := t.splitOn ":"
+    let nat (s : String) : P Nat := match s.toNat? with
+      | some n => pure n
+      | none => throw s!"bad-node {t}"
+    match parts with
+    | ["A", a, b] => pure (.add (← nat a) (← nat b))
+    | ["S", a, b] => pure (.sub (← nat a) (← nat b))
+    | ["M", a, b] => pure (.mul (← nat a) (← nat b))
+    | ["D", a, b] => pure (.div (← nat a) (← nat b))
+    | ["N", a] => pure (.neg (← nat a))
+    | ["B", a] => pure (.abs (← nat a))
+    | ["Q", a] => pure (.sqrt (← nat a))
+    | ["X", a] => pure (.exp (← nat a))
+    | ["R", a] => pure (.erfc (← nat a))
+    | ["C", a] => pure (.cdf (← nat a))
+    | ["P", a] => pure (.pdf (← nat a))
+    | ["I", a] => pure (.icdf (← nat a))
+    | ["L", a, b, o] => pure (.lt (← nat a) (← nat b) (o == "1"))
+    | ["G", a, b, o] => pure (.le (← nat a) (← nat b) (o == "1"))
+    | ["E", a, b, o] => pure (.eq (← nat a) (← nat b) (o == "1"))
+    | _ => throw s!"bad-node {t}"
+
 def runOp : P String := do
   let op ← tok
   match op with
@@ -200,7 +241,15 @@ def runOp : P String := do
     let tr := rateTrace k P PyNum.le PyNum.neg teams outcome { tau := tauO, limitSigma := lsO }
     pure ("OK " ++ " ".intercalate (tr.map (fun c =>
       s!"{toHex c.c}:{c.k}:{toHex c.mu}:{toHex c.sig2}:{c.rank}:{",".intercalate (c.ids.map toString)}")))
-  | "HRATE" =>
+  | "XEVAL" =>
+    -- a tape recorded from the Python code, evaluated on big floats; exact outputs `m@e` (value m·2^e)
+    let k ← pNat
+    let outs ← pMany k pNat
+    let n ← pNat
+    let nodes ← pMany n pNode
+    let (vals, mism) := evalTape nodes
+    pure (s!"OK {mism} " ++ " ".intercalate (outs.map (fun i => showBF (vals.getD i ⟨0, 0⟩))))
+  | "HRATE" | "HRATEX" =>
     -- the same model terms evaluated on big floats (192 bits), exact or code leaves
     let k ← pKind
     let lvTok ← tok
@@ -228,20 +277,42 @@ def runOp : P String := do
     let c := HP.ofFloat
     let P : Params HP.BF := { beta := c beta, kappa := c kappa, tau := c tau, limitSigma := ls, gamma := convGamma c g }
     let res := rate k lv P PyNum.le PyNum.neg (convTeams c teams) outcome { tau := tauO.map c, limitSigma := lsO }
-    pure ("OK " ++ showTeams (backTeams HP.toFloat res))
-  | "HPWIN" =>
+    if op == "HRATEX" then pure ("OK " ++ showTeamsX res)
+    else pure ("OK " ++ showTeams (backTeams HP.toFloat res))
+  | "HPWIN" | "HPWINX" =>
     let beta ← pFloat
     let teams ← pTeams
-    pure ("OK " ++ " ".intercalate ((predictWin (HP.ofFloat beta) (convTeams HP.ofFloat teams)).map (fun x => toHex (HP.toFloat x))))
-  | "HPDRAW" =>
+    let sh := if op == "HPWINX" then showBF else fun x => toHex (HP.toFloat x)
+    pure ("OK " ++ " ".intercalate ((predictWin (HP.ofFloat beta) (convTeams HP.ofFloat teams)).map sh))
+  | "HPDRAW" | "HPDRAWX" =>
     let beta ← pFloat
     let teams ← pTeams
-    pure ("OK " ++ toHex (HP.toFloat (predictDraw (HP.ofFloat beta) (convTeams HP.ofFloat teams))))
-  | "HPRANK" =>
+    let sh := if op == "HPDRAWX" then showBF else fun x => toHex (HP.toFloat x)
+    pure ("OK " ++ sh (predictDraw (HP.ofFloat beta) (convTeams HP.ofFloat teams)))
+  | "HPRANK" | "HPRANKX" =>
     let beta ← pFloat
     let teams ← pTeams
+    let sh := if op == "HPRANKX" then showBF else fun x => toHex (HP.toFloat x)
     pure ("OK " ++ " ".intercalate ((predictRank (HP.ofFloat beta) (convTeams HP.ofFloat teams)).map
-      (fun x => s!"{x.1}:{toHex (HP.toFloat x.2)}")))
+      (fun x => s!"{x.1}:{sh x.2}")))
+  | "HLEAFX" =>
+    -- the code-shaped leaves (guards and asymptotes included) on big floats, exact outputs
+    let fn ← tok
+    let x ← pFloat
+    let t ← pFloat
+    let bx := HP.ofFloat x
+    let bt := HP.ofFloat t
+    let r : HP.BF ← match fn with
+      | "v" => pure (vCode bx bt) | "w" => pure (wCode bx bt)
+      | "vt" => pure (vtCode bx bt) | "wt" => pure (wtCode bx bt)
+      | "Phi" => pure (Scalar.Phi bx) | "phi" => pure (Scalar.phi bx) | "PhiInv" => pure (Scalar.PhiInv bx)
+      | f => throw s!"bad-leaf {f}"
+    pure ("OK " ++ showBF r)
+  | "HORDX" =>
+    let z ← pFloat
+    let m ← pFloat
+    let sg ← pFloat
+    pure ("OK " ++ showBF (ordinal (HP.ofFloat z) ({ id := 0, mu := HP.ofFloat m, sigma := HP.ofFloat sg } : Rating HP.BF)))
   | "HLEAFS" =>
     let x ← pFloat
     let t ← pFloat
